@@ -7,7 +7,7 @@ is parsed into the model's graph type and compared with Model/Json.v:spn_to_grap
 compared with graph_to_spn of that text, and the property clause itself (loaded = original with
 round8 parameters, single precision) is evaluated inside Coq.  Direct oracle: log-likelihoods of the
 original and the loaded model on random rows away from density discontinuities."""
-import io, json, os, shutil, math
+import io, json, os, shutil, math, itertools
 from collections import deque
 from fractions import Fraction
 import numpy as np
@@ -540,6 +540,80 @@ def generations(kind, obj, ngen, k0, tag):
     return recs
 
 
+def nonfinite_stage(rep, rs, tier):
+    """Chow-Liu trees with exact-zero table entries (log-parameters -inf: hand-built deterministic tables, or fit(alpha=0) on
+    data in which a parent/child configuration never occurs), alone and as a circuit leaf.  The exact-rational model has no
+    infinite numbers, so these are checked on the implementation only: every generation saves and loads, structure equal,
+    finite log-parameters within the 8-decimal rounding, infinite ones still infinite, same log-likelihood on every row."""
+    from deeprob.spn.structure.cltree import BinaryCLT
+    from deeprob.spn.structure.leaf import Bernoulli
+    from deeprob.spn.structure.node import Product, Sum, assign_ids
+    from deeprob.spn.algorithms.inference import log_likelihood
+    nbad = 0; ndone = 0
+    for i in range(6 if tier == "quick" else 40):
+        n = int(rs.randint(2, 5))
+        scope = list(range(n)) if i % 2 == 0 else [int(v) for v in rs.permutation(n)]
+        order = list(rs.permutation(n)); tree = [-1] * n
+        for k in range(1, n):
+            tree[order[k]] = int(order[rs.randint(0, k)])
+        p = rs.randint(1, 16, size=(n, 2)) / 16.0
+        det = rs.rand(n, 2) < 0.5; det[rs.randint(n), rs.randint(2)] = True
+        p = np.where(det, rs.randint(0, 2, size=(n, 2)).astype(float), p)
+        params = np.zeros((n, 2, 2)); params[:, :, 1] = p; params[:, :, 0] = 1 - p
+        r = tree.index(-1); params[r, 1] = params[r, 0]
+        with np.errstate(divide="ignore"):
+            clt = BinaryCLT(scope, tree=tree, params=np.log(params).tolist())
+        if i % 3 == 2:      # the same kind of table learned from data: fit without smoothing on a deterministic relation
+            X = (rs.rand(60, n) < 0.5).astype(np.float32); X[:, 1 % n] = X[:, 0]
+            clt = BinaryCLT(list(range(n)), root=0)
+            with np.errstate(divide="ignore", invalid="ignore"):
+                try:
+                    clt.fit(X, [[0, 1]] * n, alpha=0.0, random_state=int(rs.randint(1 << 30)))
+                except Exception:
+                    continue
+            if not np.isneginf(np.asarray(clt.params, dtype=np.float64)).any() or np.isnan(np.asarray(clt.params, dtype=np.float64)).any():
+                continue
+        objs = [("clt", clt)]
+        leafc = BinaryCLT(list(clt.scope), tree=[int(t) for t in clt.tree], params=np.asarray(clt.params).tolist())
+        root = Sum(children=[Product(children=[leafc, Bernoulli(n, 0.25)]), Product(children=[Bernoulli(v, 0.5) for v in range(n + 1)])],
+                   weights=[0.5, 0.5])
+        assign_ids(root); objs.append(("spn", root))
+        R = np.array(list(itertools.product([0, 1], repeat=n + 1)), dtype=np.float32)
+        for kind, obj in objs:
+            ndone += 1
+            recs = generations(kind, obj, 2, 900 + 3 * i + (kind == "spn"), f"nonfinite:{kind}")
+            bad = None
+            for rec in recs:
+                if rec["save_error"] or rec["load_error"] or rec["loaded"] is None:
+                    bad = dict(what="saving or loading failed", generation=rec["gen"], target=rec["target"],
+                               save_error=rec["save_error"], load_error=rec["load_error"]); break
+            if bad is None:
+                last = recs[-1]["loaded"]
+                a = clt if kind == "clt" else leafc
+                b = last if kind == "clt" else next(o for o in topo(last) if type(o).__name__ == "BinaryCLT")
+                pa, pb = np.asarray(a.params, dtype=np.float64), np.asarray(b.params, dtype=np.float64)
+                fin = np.isfinite(pa)
+                if list(a.scope) != list(b.scope) or [int(t) for t in a.tree] != [int(t) for t in b.tree] or pa.shape != pb.shape:
+                    bad = dict(what="structure of the loaded tree differs", scope=[list(a.scope), list(b.scope)])
+                elif not (np.array_equal(np.isneginf(pa), np.isneginf(pb)) and np.all(np.abs(pa[fin] - pb[fin]) <= 2e-8 + 1e-7 * np.abs(pa[fin]))):
+                    bad = dict(what="parameters of the loaded tree differ beyond the 8-decimal rounding", original=pa.tolist(), loaded=pb.tolist())
+                else:
+                    with np.errstate(all="ignore"):
+                        if kind == "clt":
+                            la = np.asarray(clt.log_likelihood(R[:, :n])).reshape(-1); lb = np.asarray(last.log_likelihood(R[:, :n])).reshape(-1)
+                        else:
+                            la = np.asarray(log_likelihood(root, R)).reshape(-1); lb = np.asarray(log_likelihood(last, R)).reshape(-1)
+                    f2 = np.isfinite(la)
+                    if not (np.array_equal(f2, np.isfinite(lb)) and np.allclose(la[f2], lb[f2], rtol=1e-5, atol=1e-5)):
+                        bad = dict(what="log-likelihoods of the loaded model differ", original=la.tolist(), loaded=lb.tolist())
+            if bad:
+                nbad += 1
+                if nbad <= 3:
+                    rep.violation(dict(kind="round-trip-of-a-tree-with-infinite-log-parameters", model_kind=kind, scope=list(clt.scope),
+                                       tree=[int(t) for t in clt.tree], params=np.asarray(clt.params, dtype=np.float64).tolist(), failure=bad), True)
+    rep.cov["nonfinite_clt_round_trips"] = ndone
+
+
 def case_coq(rec):
     """Coq term of one generation; raises Unsupported when the observation cannot be expressed
     (reported as a violation by the caller: the model has no such behaviour)."""
@@ -921,6 +995,7 @@ def main(tier, seed, replay=None):
                        "3-generation drift comparison, all decided inside Coq; non-trivial = more than one node or a parametrised "
                        "root; distinct by JSON text hash; log-likelihood oracle on 24 random rows per object (15% missing cells, "
                        "points away from Uniform ends and Isotonic breaks)")
+    nonfinite_stage(rep, rs, tier)
     C.clean_gen(PID)
     shutil.rmtree(WORK, ignore_errors=True)
     return rep.finish("proof")
